@@ -2,6 +2,8 @@
 
 import os
 
+import warnings
+
 import numpy as np
 
 from .. import gen, ref, ux, core, dialects, env
@@ -10,6 +12,7 @@ PROPERTY = "C01"
 SHARDS = {"quick": 8, "thorough": 16}
 MODES = {"quick": [{"name": "jit", "env": {}}], "thorough": [{"name": "jit+boundscheck", "env": {"NUMBA_BOUNDSCHECK": "1"}}]}
 RULE = (
+    "plus the repository's 19 sample files (UGRID x7, MPAS primal+dual, SCRIP x2, Exodus x2, ESMF, GEOS-CS, GeoJSON, 3 shapefiles) against an independent decoding of their raw variables; "
     "cases: 12 source kinds (UGRID, MPAS primal, MPAS dual, SCRIP, Exodus, ESMF, GEOS-CS, ICON, GeoJSON, shapefile, "
     "face-vertex arrays, explicit topology) x seeded dialect vectors (start_index 0/1/absent as int or string; fill "
     "-1/-999/999999/int-min/NaN; int32/int64/float64 storage; random variable and dimension names; 0..360 or "
@@ -49,6 +52,11 @@ def cases(tier, seed):
         else:
             d = gen.random_mesh(rng, maxf)
         yield {"kind": kind, "mesh": d, "dseed": int(rng.integers(0, 10**6)), "via_file": bool(rng.random() < 0.4)}
+    # the repository's own sample files, decoded independently (uxmon/samplefiles.py)
+    from .. import samplefiles
+
+    for i, (fkind, rel, kw) in enumerate(samplefiles.FILES):
+        yield {"kind": "sample_file", "format": fkind, "file": rel, "kw": kw, "dseed": i}
 
 
 def _workdir():
@@ -210,7 +218,58 @@ def supplied_checks(ctx, g, info, sig):
         ctx.check("no_exception", False, dict(sig, stage="supplied", exc=core.exc_sig(e)), {"exc": repr(e)})
 
 
+def run_sample_file(ctx, case):
+    """A real file: the faces uxarray reports against an independent decoding of the raw variables."""
+    from .. import samplefiles
+
+    U = ux.ux()
+    path = os.path.join(samplefiles.root(), case["file"])
+    sig = {"format": "sample_file:" + case["format"], "file": os.path.basename(case["file"])}
+    if not os.path.exists(path) or os.path.getsize(path) == 0:
+        ctx.observe("sample_file_absent:" + case["file"])
+        return
+    kw = {k: v for k, v in case["kw"].items() if not k.startswith("_")}
+    try:
+        exp = samplefiles.decode(case["format"], case["file"])
+    except Exception as e:
+        ctx.harness_error("sample_file_decoder", e)
+        return
+    polygons = case["format"] in ("geojson", "shapefile")
+    try:
+        with warnings.catch_warnings():
+            warnings.simplefilter("ignore")
+            g = U.Grid.from_file(path) if polygons else U.open_grid(path, **kw)
+    except Exception as e:
+        ctx.check("no_exception", False, dict(sig, stage="open", exc=core.exc_sig(e)), {"exc": repr(e)[:300]})
+        return
+    ctx.check("no_exception", True)
+    first = [["node_lon", "node_lat"], ["node_lat", "node_lon"], ["face_node_connectivity", "node_lat", "node_lon"]][case["dseed"] % 3]
+    for nm in first:
+        np.asarray(getattr(g, nm).values)
+    try:
+        ok, why = ux.faces_match(g, exp, allow_reflection=polygons, tol=case["kw"].get("_tol", 1e-9))
+    except Exception as e:
+        ok, why = False, {"why": "exception while reading faces", "exc": repr(e)[:300]}
+    ctx.check("faces_equal", ok, dict(sig, why=(why or {}).get("why", "")), {"why": why})
+    probs = ux.standard_table(g.face_node_connectivity, g.n_node)
+    ctx.check("standard_form", not probs, dict(sig, problem=probs[0].split(" ")[0].split("=")[0] if probs else ""), {"problems": probs})
+    lon, lat = np.asarray(g.node_lon.values, float), np.asarray(g.node_lat.values, float)
+    ctx.check("lon_lat_range", bool(np.all(lon >= -180) and np.all(lon <= 180) and np.all(lat >= -90) and np.all(lat <= 90)), sig,
+              {"lon": [float(lon.min()), float(lon.max())], "lat": [float(lat.min()), float(lat.max())]})
+    # the same file a second time in the same process
+    if ok and not polygons:
+        g2 = U.open_grid(path, **kw)
+        ok2, why2 = ux.faces_match(g2, exp, tol=case["kw"].get("_tol", 1e-9))
+        ctx.check("faces_equal", ok2, dict(sig, why=(why2 or {}).get("why", ""), opened="second_time"), {"why": why2})
+    ctx.mark_nontrivial()
+    ctx.observe("sample_files")
+    ctx.observe("sample_file_format_" + case["format"])
+    ctx.sample({"sample_file": case["file"], "format": case["format"], "n_face": exp.n_face, "n_node_in_file": exp.n_node, "face_sizes": sorted({len(f) for f in exp.faces})}, limit=25)
+
+
 def run_case(ctx, case):
+    if case["kind"] == "sample_file":
+        return run_sample_file(ctx, case)
     rng = np.random.default_rng(case["dseed"])
     m = None if case["kind"] == "geos" else gen.build(case["mesh"])
     try:
